@@ -248,8 +248,9 @@ fn cargo() -> Command {
 pub fn build(names: &[&str]) -> BuildResult {
     let mut c = cargo();
     c.args(["build", "--offline", "--keep-going", "--message-format=short"]);
+    // only the probe binary of each package (negative compile probes are extra [[bin]] targets)
     for n in names {
-        c.args(["-p", n]);
+        c.args(["-p", n, "--bin", n]);
     }
     let out = c.output().expect("cargo build");
     BuildResult { ok: out.status.success(), stderr: String::from_utf8_lossy(&out.stderr).to_string() }
